@@ -68,12 +68,15 @@ def _run_suite(tree, jobs=6):
     still = []
     for t in failed:
         ok = False
-        for _ in range(3):
+        last = ""
+        for _ in range(6):
             rc2, o2 = sh("./t-%s" % t, cwd=os.path.join(tree, "_build"), timeout=3600)
             if rc2 == 0:
                 ok = True
                 break
-        note += "test %s failed in the parallel run, %s when rerun alone; " % (t, "passed" if ok else "FAILED")
+            last = o2.strip().splitlines()[-1][-200:] if o2.strip() else ""
+        note += "test %s failed in the parallel run, %s when rerun alone%s; " % (
+            t, "passed" if ok else "FAILED", "" if ok else " (last line: %s)" % last)
         if not ok:
             still.append(t)
     m = re.search(r"(\d+)% tests passed, (\d+) tests failed out of (\d+)", out)
